@@ -284,7 +284,8 @@ def scenario(kinds, order, dup=True, loss_at=None):
     for i in range(n):
         before = set(p._pendingCalls)
         out = []
-        p.callRemote('/o', 'M%d' % i, interface='org.e.I', destination='org.e', timeout=dl[i]).addBoth(out.append)
+        # calls addressed to a well-known name and to a unique name alike
+        p.callRemote('/o', 'M%d' % i, interface='org.e.I', destination=('org.e', ':1.42', ':1.7')[i % 3], timeout=dl[i]).addBoth(out.append)
         fresh = set(p._pendingCalls) - before
         if len(fresh) != 1:
             return 'call %d was not registered under a serial of its own: pending serials %r before, %r after' % (i, sorted(before), sorted(p._pendingCalls))
@@ -295,10 +296,18 @@ def scenario(kinds, order, dup=True, loss_at=None):
 
     def reply(i, kind):
         if kind == 'R':
-            return message.MethodReturnMessage(serials[i], signature='s', body=['v%d' % i])
-        if kind == 'E':
-            return message.ErrorMessage('org.e.Err%d' % i, serials[i], signature='s', body=['m%d' % i])
-        return message.ErrorMessage('org.e.Err%d' % i, serials[i])
+            m = message.MethodReturnMessage(serials[i], signature='s', body=['v%d' % i])
+        elif kind == 'E':
+            m = message.ErrorMessage('org.e.Err%d' % i, serials[i], signature='s', body=['m%d' % i])
+        else:
+            m = message.ErrorMessage('org.e.Err%d' % i, serials[i])
+        # a reply is matched by its reply serial, whoever the bus names as its sender: the peer's unique name, another name of the
+        # same peer, the bus daemon itself (its own errors for a peer that has gone), or none at all
+        snd = (None, ':1.42', ':1.99', 'org.freedesktop.DBus')[(i + len(kinds) + (0 if kind == 'R' else 1)) % 4]
+        if snd is not None:
+            m.sender = snd
+            m._marshal(False)
+        return m
 
     def check(where):
         live = [i for i in range(n) if i not in done]
